@@ -500,7 +500,7 @@ def r1_callsites(ctx, exempt):
                 else:
                     rep.bad("C26.R1", C, c, f"N / N_xi passed to the memoised kernel are not provably the basis functions of the keyed xi ({why}): "
                             f"a cache hit may return the evaluation for different shape-function values", f"{rel}:{c.lineno}")
-    if n_sites < 23:
+    if n_sites < 18:   # 23 confirmed by hand; a routine that stops using the kernels (computes its result another way) is not an analysis failure
         raise AnalysisError(f"only {n_sites} _eval/_deval call sites found (23 confirmed by hand)")
 
 
